@@ -219,7 +219,13 @@ func c09Text(c *fw.Ctx, fam string, idx int, text string, viaCLI bool) {
 	c.Sample(func() any { return cs() })
 	rs, _, errs, panicked, pv, st := klogParse(text)
 	if panicked || len(errs) > 0 {
-		c.Outcome("skipped-klog-rejects") // C01's business
+		if !panicked && !ref.ZsBlank {
+			// (whether the parser is RIGHT is C01's business; but a valid file that cannot be printed at all has no
+			// equivalent canonical form)
+			c.Violation("valid-file-not-printed", cs(), fmt.Sprintf("the file is valid but klog cannot read it (%s), so `klog print` yields no equivalent file", errSummary(errs)))
+			return
+		}
+		c.Outcome("skipped-klog-rejects")
 		_ = pv
 		_ = st
 		return
